@@ -79,6 +79,7 @@ class P(vlib.Prop):
         "Coq 8.16.1 kernel + vm_compute (coqc); no axioms (Print Assumptions: closed under the global context)",
         "translator T1 (tools/go2coq): GetHTTPStatusCodeFromStatus, shouldRetry, isRetryableStatusCode and the grpc codes constants are re-read from the current source on every run",
         "table dump by running: statusutil.NewStatusFromMsgAndHTTPCode on HTTP statuses 0..999 (overlay test), written to Generated/C15StatusUtil.v",
+        "graph dumps by running (go test -overlay, whole finite domains): writeStatusResponse / readContentType / errorHandler / writeError -> Generated/C15RecvHttpGraph.v, GetStatusFromError -> Generated/C15ErrorsGraph.v (model proved equal to them in C15/Obligations.v); scan of otlpReceiver.Shutdown's stop calls -> Generated/C15Shutdown.v; offered compression sets (coverage gate)",
         "hand-written OTLP specification tables spec_grpc_retryable / spec_http_retryable (C15/Model.v), transcribed from opentelemetry-proto docs/specification.md",
         "Go harnesses harness/C15/*.go + go test -overlay; Go toolchain; loopback networking",
         "modelled by hand, tied by correspondence: GetStatusFromError, Receiver.Export (items = 0), otlphttp.go handlers/writeError/writeStatusResponse/errorHandler, confighttp handler order, processError, otlphttpexporter.export",
@@ -86,6 +87,7 @@ class P(vlib.Prop):
     assumptions = [
         "grpc-go and net/http transport a status (code, details) / a response (status, headers, body) unchanged (validated by the hop harness on every run, not proved)",
         "payload codec (C08) and compression (C16) round-trip: section hypotheses of hop_delivers; the hop harness compares the sink payload with the sent one by marshalled bytes",
+        "net/http Server.Shutdown and grpc-go GracefulStop wait for running handlers and deliver their responses (hypotheses of shutdown_drains_inflight; validated by the kind-10 scenarios on every transport)",
         "HTTP status codes are within 0..999 (domain of the dumped NewStatusFromMsgAndHTTPCode table)",
     ]
 
@@ -93,11 +95,34 @@ class P(vlib.Prop):
         # the four translations are independent: run them concurrently (every failure is reported)
         import concurrent.futures
         vlib.build_tool("go2coq")
+        def t1(module, spec, out):
+            # a translator process that dies without a word (killed under memory pressure on a shared machine) is
+            # retried; a real translation failure prints "TRANSLATION FAILURE" and is reported at once
+            import time
+            for attempt in range(3):
+                try:
+                    return vlib.go2coq(ctx, module, os.path.join(HERE, spec), out)
+                except vlib.Broken as b:
+                    if b.detail.strip() or attempt == 2:
+                        raise
+                    time.sleep(3)
         jobs = [
-            lambda: vlib.go2coq(ctx, "receiver/otlpreceiver", os.path.join(HERE, "t1_recv.json"), "C15Recv"),
-            lambda: vlib.go2coq(ctx, "exporter/otlpexporter", os.path.join(HERE, "t1_grpcexp.json"), "C15GrpcExp"),
-            lambda: vlib.go2coq(ctx, "exporter/otlphttpexporter", os.path.join(HERE, "t1_httpexp.json"), "C15HttpExp"),
+            lambda: t1("receiver/otlpreceiver", "t1_recv.json", "C15Recv"),
+            lambda: t1("exporter/otlpexporter", "t1_grpcexp.json", "C15GrpcExp"),
+            lambda: t1("exporter/otlphttpexporter", "t1_httpexp.json", "C15HttpExp"),
             lambda: self.dump_statusutil(ctx),
+            lambda: self.scan_shutdown(ctx),
+            lambda: self.dump_compsets(ctx),
+            lambda: self.dump_graph(ctx, vlib.Harness("rhdump", "receiver/otlpreceiver", ".",
+                                                       {"zz_verif_c15_dump_test.go": "C15/recvhttp_dump_test.go"},
+                                                       "^TestVerifC15RecvHTTPDump$", "otlpreceiver", timeout=600, extra_env=RO),
+                                    "C15RecvHttpGraph", "recvhttp_graph",
+                                    "writeStatusResponse / readContentType / errorHandler / writeError (receiver/otlpreceiver/otlphttp.go)"),
+            lambda: self.dump_graph(ctx, vlib.Harness("errdump", "receiver/otlpreceiver", "./internal/errors/",
+                                                       {"zz_verif_c15_test.go": "C15/errors_test.go"},
+                                                       "^TestVerifC15Errors$", "errors", timeout=600, extra_env=RO),
+                                    "C15ErrorsGraph", "errors_graph",
+                                    "GetStatusFromError / GetHTTPStatusCodeFromStatus (receiver/otlpreceiver/internal/errors/errors.go)"),
         ]
         errs = []
         with concurrent.futures.ThreadPoolExecutor(max_workers=4) as ex:
@@ -108,6 +133,95 @@ class P(vlib.Prop):
                     errs.append(b)
         if errs:
             raise vlib.Broken("; ".join(b.what for b in errs), "\n".join(b.detail for b in errs))
+
+    def dump_graph(self, ctx, h, out_name, def_name, what):
+        """Run finite functions of the CURRENT tree on their whole domains (an overlay test printing one line per
+        point) and write the graph as a Coq list; coq/C15/Obligations.v proves the model agrees with every line."""
+        cases, oracle, stats, err = vlib.run_harness(ctx, h)
+        if err:
+            raise vlib.Broken("graph dump of %s fails on the current tree: %s" % (what, err.what), err.detail)
+        seen, terms = set(), []
+        for c in cases:
+            if c["term"] not in seen:
+                seen.add(c["term"])
+                terms.append(c["term"])
+        text = ("(* GENERATED by props/C15/check.py by RUNNING %s of the current /repo working tree on the\n"
+                "   whole finite domain (harness/%s) - do not edit.  One line = (kind, (input, observed)). *)\n"
+                "From Coq Require Import ZArith List.\nImport ListNotations.\n\n"
+                "Definition %s : list (nat * (list Z * list Z)) := [\n%s\n].\n"
+                % (what.replace("(*", "( *"), list(h.files.values())[0], def_name, ";\n".join(terms)))
+        _write_if_changed(os.path.join(vlib.COQ, "Generated", out_name + ".v"), text)
+        ctx.translator_manifests.append({"file": what + " (graph dumped by running, go test -overlay)", "lines": None,
+                                         "sha256": hashlib.sha256(text.encode()).hexdigest(),
+                                         "defines": [def_name + " (%d lines)" % len(terms)], "params": None})
+
+    def dump_compsets(self, ctx):
+        """Which compressions do confighttp's client and server sides offer on the CURRENT tree (run, not read)."""
+        h = vlib.Harness("compsets", "config/confighttp", ".", {"zz_verif_c15_test.go": "C15/compsets_dump_test.go"},
+                         "^TestVerifC15CompSets$", "confighttp", timeout=600, extra_env=RO)
+        cases, oracle, stats, err = vlib.run_harness(ctx, h)
+        if err:
+            raise vlib.Broken("dump of the offered compression sets (config/confighttp) fails on the current tree: " + err.what, err.detail)
+        offered = []
+        for c in cases:
+            name, client, dec, enabled = c["term"].split("|")
+            if client == "true" and dec == "true" and enabled == "true":
+                offered.append(name)
+        if not offered:
+            raise vlib.Broken("dump of the offered compression sets is empty", "")
+        self.offered_http_compressions = sorted(offered)
+        ctx.extra_coverage["offered_http_compressions"] = self.offered_http_compressions
+
+    def extra_checks(self, ctx):
+        """Coverage obligation: every compression offered by both confighttp sides was exercised by the hop harness on
+        both OTLP/HTTP encodings, with a multi-block body."""
+        offered = getattr(self, "offered_http_compressions", None)
+        if offered is None or not any(k.startswith("hop.hop_comp_") for k in ctx.stats):
+            return   # the dump or the hop harness did not run: already reported as broken
+        missing = []
+        for name in offered:
+            for tr in (1, 2):
+                if not any(k == "hop.hop_comp_%d_%s" % (tr, name) or k.startswith("hop.hop_comp_%d_%s:" % (tr, name)) for k in ctx.stats):
+                    missing.append("%s on transport %d" % (name, tr))
+            if not any(k.startswith("hop.hop_large_comp_") and k.split("_comp_")[1].split(":")[0] == name for k in ctx.stats):
+                missing.append("%s with a multi-block body" % name)
+        if missing:
+            raise vlib.Broken("a compression offered by confighttp's client and server is not exercised by the hop harness: "
+                              + ", ".join(missing), "offered on the current tree: %s" % offered)
+
+    def scan_shutdown(self, ctx):
+        """Which stop call does otlpReceiver.Shutdown make on each server?  A scan of the function body in the CURRENT
+        source (VERIF_EXTRA_OVERLAY honoured), written to Generated/C15Shutdown.v."""
+        import re
+        path = os.path.join(vlib.REPO, "receiver/otlpreceiver/otlp.go")
+        src_path = path
+        xo = os.environ.get("VERIF_EXTRA_OVERLAY")
+        if xo and os.path.exists(xo):
+            src_path = json.load(open(xo)).get("Replace", {}).get(path, path)
+        src = vlib.strip_go_comments(open(src_path).read()) if hasattr(vlib, "strip_go_comments") else re.sub(r"//[^\n]*", "", open(src_path).read())
+        m = re.search(r"func \(r \*otlpReceiver\) Shutdown\(.*?\n}\n", src, re.S)
+        if not m:
+            raise vlib.Broken("scan of otlpReceiver.Shutdown: function not found in receiver/otlpreceiver/otlp.go", "")
+        body = m.group(0)
+        codes = {"Shutdown": 0, "Close": 1, "GracefulStop": 2, "Stop": 3}
+
+        def call(field):
+            cs = re.findall(r"r\.%s\.(\w+)\(" % field, body)
+            if len(cs) != 1 or cs[0] not in codes:
+                raise vlib.Broken("scan of otlpReceiver.Shutdown: expected exactly one stop call on r.%s, found %r" % (field, cs), body)
+            return cs[0], codes[cs[0]]
+        hn, hc = call("serverHTTP")
+        gn, gc = call("serverGRPC")
+        text = ("(* GENERATED by props/C15/check.py from the body of otlpReceiver.Shutdown in the current\n"
+                "   /repo/receiver/otlpreceiver/otlp.go - do not edit.\n"
+                "   0 = http.Server.Shutdown, 1 = http.Server.Close, 2 = grpc.Server.GracefulStop, 3 = grpc.Server.Stop *)\n"
+                "From Coq Require Import ZArith.\nLocal Open Scope Z_scope.\n\n"
+                "Definition otlp_Shutdown_http_call : Z := %d.  (* r.serverHTTP.%s(...) *)\n"
+                "Definition otlp_Shutdown_grpc_call : Z := %d.  (* r.serverGRPC.%s(...) *)\n" % (hc, hn, gc, gn))
+        _write_if_changed(os.path.join(vlib.COQ, "Generated", "C15Shutdown.v"), text)
+        ctx.translator_manifests.append({"file": "receiver/otlpreceiver/otlp.go (scan of Shutdown)", "lines": None,
+                                         "sha256": hashlib.sha256(body.encode()).hexdigest(),
+                                         "defines": ["otlp_Shutdown_http_call", "otlp_Shutdown_grpc_call"], "params": None})
 
     def dump_statusutil(self, ctx):
         """Run NewStatusFromMsgAndHTTPCode of the CURRENT tree on 0..999 and write its graph as a Coq function."""
